@@ -5,6 +5,7 @@ import (
 	"github.com/cloudwego/hertz/pkg/common/test/mock"
 	"github.com/cloudwego/hertz/pkg/protocol"
 	"github.com/cloudwego/hertz/pkg/protocol/http1/req"
+	"github.com/cloudwego/hertz/pkg/route/param"
 	"math"
 	"os"
 	"reflect"
@@ -1150,6 +1151,31 @@ type bnKeyMap struct {
 	ByK  map[bnKey]string `json:"-"`
 }
 
+// an embedded named slice of structs with rules; a type with a customized decoder that has a rule inside
+type BnItems []bnItem
+
+type bnEmbedSlice struct {
+	A int `json:"a"`
+	BnItems
+}
+
+type bnMoney struct {
+	Amount int `vd:"$>0"`
+}
+
+type bnPrice struct {
+	M bnMoney `query:"m"`
+}
+
+var moneyBinder = func() binding.Binder {
+	bc := binding.NewBindConfig()
+	bc.MustRegTypeUnmarshal(reflect.TypeOf(bnMoney{}), func(req *protocol.Request, params param.Params, text string) (reflect.Value, error) {
+		n, err := strconv.Atoi(text)
+		return reflect.ValueOf(bnMoney{Amount: n}), err
+	})
+	return binding.NewDefaultBinder(bc)
+}()
+
 type bnInnerUnexported struct {
 	Name string `json:"name"`
 	In   struct {
@@ -1209,6 +1235,8 @@ func TestC20BinderNested(t *testing.T) {
 		{"linked list *T, link first, 1 node", func(n int) interface{} { return &bnListLinkFirst{} }, func(n int) string { return nestList(1, n) }},
 		{"linked list *T, link first, 2 nodes (deep)", func(n int) interface{} { return &bnListLinkFirst{} }, func(n int) string { return nestList(2, n) }},
 		{"linked list *T, link first, 4 nodes (deep)", func(n int) interface{} { return &bnListLinkFirst{} }, func(n int) string { return nestList(4, n) }},
+		{"embedded named slice of structs", func(n int) interface{} { return &bnEmbedSlice{} }, func(n int) string { return fmt.Sprintf(`{"a":1,"BnItems":[{"n":%d}]}`, n) }},
+		{"type with a customized decoder (query m)", func(n int) interface{} { return &bnPrice{} }, func(n int) string { return `{}` }},
 		{"embedded non-struct type", func(n int) interface{} { return &bnEmbedInt{} }, func(n int) string { return fmt.Sprintf(`{"n":%d}`, n) }},
 		{"unexported field with a rule", func(n int) interface{} { return &bnUnexported{} }, func(n int) string { return fmt.Sprintf(`{"n":%d}`, n) }},
 		{"unexported field with a rule, in a nested struct", func(n int) interface{} { return &bnInnerUnexported{} }, func(n int) string { return fmt.Sprintf(`{"name":"x","in":{"n":%d}}`, n) }},
@@ -1221,16 +1249,20 @@ func TestC20BinderNested(t *testing.T) {
 	for _, c := range cases {
 		for _, n := range []int{-1, 0, 1, 7} {
 			body := c.body(n)
-			wire := fmt.Sprintf("POST /x HTTP/1.1\r\nHost: h\r\nContent-Type: application/json\r\nContent-Length: %d\r\n\r\n%s", len(body), body)
+			wire := fmt.Sprintf("POST /x?m=%d HTTP/1.1\r\nHost: h\r\nContent-Type: application/json\r\nContent-Length: %d\r\n\r\n%s", n, len(body), body)
 			var r protocol.Request
 			if err := req.Read(&r, mock.NewZeroCopyReader(wire)); err != nil {
 				t.Fatalf("harness: %v", err)
 			}
 			rec.Case(true, ev.HashString(c.name, fmt.Sprint(n)), "binder-nested-"+c.name)
 			obj := c.mk(n)
-			errBV := binding.DefaultBinder().BindAndValidate(&r, obj, nil)
+			binder := binding.DefaultBinder()
+			if strings.HasPrefix(c.name, "type with a customized decoder") {
+				binder = moneyBinder
+			}
+			errBV := binder.BindAndValidate(&r, obj, nil)
 			obj2 := c.mk(n)
-			if err := binding.DefaultBinder().Bind(&r, obj2, nil); err != nil {
+			if err := binder.Bind(&r, obj2, nil); err != nil {
 				t.Fatalf("harness: Bind: %v", err)
 			}
 			errV := binding.Validate(obj2)
